@@ -10,6 +10,8 @@ inline long g_laws = 0;
 struct Bad { std::string fam, law, detail; };
 
 template<class P> auto rawp(P const& p) { if constexpr(std::is_pointer_v<P>) { return p; } else { return p.verif_raw(); } }   // harness-side view of a (possibly fancy) pointer
+template<class A, class B, class = void> struct mixed_eq : std::false_type {};
+template<class A, class B> struct mixed_eq<A, B, std::void_t<decltype(std::declval<A const&>() == std::declval<B const&>()), decltype(std::declval<A const&>() != std::declval<B const&>())>> : std::true_type {};
 template<class V> auto sub_addr(V const& s) { return rawp(s.base()); }
 
 // address designated by dereferencing an iterator of a D-dimensional view
@@ -132,6 +134,11 @@ std::vector<Bad> check_iters(V&& v, MView const& m, int const* data) {
 			typename std::decay_t<V>::const_iterator ct = it;
 			++g_laws; if(!(ct == v.cbegin() + p)) { bad.push_back(Bad{"const_iterator", "converted const_iterator equals cbegin+p", "p=" + std::to_string(p)}); }
 			++g_laws; if(ct - v.cbegin() != p) { bad.push_back(Bad{"const_iterator", "converted const_iterator distance", "p=" + std::to_string(p)}); }
+			// const and mutable iterators to one position compare equal (directly, when the mixed comparison is well-formed)
+			if constexpr(mixed_eq<decltype(it), decltype(ct)>::value) {
+				++g_laws; if(!(it == ct) || (it != ct)) { bad.push_back(Bad{"const_iterator", "mutable iterator == const_iterator at the same position", "p=" + std::to_string(p)}); }
+				if(p > 0) { auto prev = v.begin() + (p - 1); ++g_laws; if(prev == ct) { bad.push_back(Bad{"const_iterator", "mutable iterator != const_iterator at another position", "p=" + std::to_string(p)}); } }
+			}
 			if(p < n && nonempty) {
 				idx i = m.d[0].first + p;
 				if constexpr(D == 1) { ++g_laws; if(std::addressof(*it) != std::addressof(v[i])) { bad.push_back(Bad{"iterator", "*(begin+p) is v[first+p]", "p=" + std::to_string(p)}); } }
